@@ -243,6 +243,15 @@ def magnify(rnd, spec, mode=None):
     return {"cands": list(spec["cands"]), "ballots": bl}
 
 
+def rescaled(spec, factor):
+    """every weight multiplied by the same exact factor (shares, ties and every scale-free answer are unchanged)"""
+    from .canon import pf, fs
+    return {"cands": list(spec["cands"]), "ballots": [dict(b, w=fs(pf(b["w"]) * factor)) for b in spec["ballots"]]}
+
+
+FACTORS = [F(1, 10 ** 12), F(1, 10 ** 9), F(3, 10 ** 10), F(10 ** 9), F(2 ** 53), F(10 ** 15)]
+
+
 def any_ranked(rnd, integer=False, maxn=6, scale_ok=True):
     """Mixture of uniform and hostile untied profiles; returns (spec, m, tag)."""
     if scale_ok and maxn >= 6 and rnd.random() < SCALE_P:
